@@ -198,7 +198,7 @@ class OutNFA(rx.NFA):
         idx = lambda q, m: m * n + q
         for q in range(n):
             for m in range(3):
-                for t in self.eps[q] + self.bol[q] + self.eol[q]:
+                for t in self.eps[q] + self.bol[q] + self.eol[q] + self.eos[q]:
                     e.edge(idx(q, m), None, idx(t, m))
                 for blocks, t in self.trans[q]:
                     # only the embedded group automata use self.trans: permissive monitor (state 1)
